@@ -209,10 +209,11 @@ pub fn convert<'a, R: Reader<Offset = usize> + 'a>(mk: &dyn Fn(&'a [u8]) -> R, c
     let mut split_dwarf = load_dwarf(mk, case, "dwo_");
     split_dwarf.make_dwo(&dwarf);
     ctx.enter_with_budget("write.ConvertUnit.stepwise", budget);
-    let stepwise = (|| -> write::ConvertResult<(usize, usize)> {
+    let stepwise = (|| -> write::ConvertResult<(usize, usize, u64)> {
         let mut out = write::Dwarf::new();
         let mut sections = Sections::new(FaultWriter::probed(endian, write_fail_at, &ctx.sim));
         let (mut units, mut splits) = (0usize, 0usize);
+        let mut helper_oks = 0u64;
         {
             let mut conv = out.convert(&dwarf)?;
             while let Some((mut unit, root)) = conv.read_unit()? {
@@ -245,6 +246,7 @@ pub fn convert<'a, R: Reader<Offset = usize> + 'a>(mk: &dyn Fn(&'a [u8]) -> R, c
                     continue;
                 }
                 stepwise_unit(&mut unit, root, &convert_address, sel)?;
+                helper_oks += direct_helpers(&unit, &convert_address, n);
                 match mode {
                     1 => unit.write(&mut sections).map_err(write::ConvertError::Write)?,
                     2 => unit.skip(),
@@ -253,11 +255,12 @@ pub fn convert<'a, R: Reader<Offset = usize> + 'a>(mk: &dyn Fn(&'a [u8]) -> R, c
             }
         }
         out.write(&mut sections).map_err(write::ConvertError::Write)?;
-        Ok((units, splits))
+        Ok((units, splits, helper_oks))
     })();
     match stepwise {
-        Ok((u, sp)) => {
+        Ok((u, sp, h)) => {
             ctx.item();
+            ev!(ctx, "helpers ok={}", h);
             if sp > 0 {
                 ctx.probe("convert_split_ok");
             }
@@ -526,4 +529,26 @@ fn lazy_converters<R: Reader<Offset = usize>>(
             }
         }
     }
+}
+
+/// The public single-value converters of `ConvertUnit`, called directly with caller-chosen
+/// offsets and indexes from the boundary ladder (they must answer with a value or an error).
+fn direct_helpers<R: Reader<Offset = usize>>(
+    unit: &write::ConvertUnit<'_, R>,
+    convert_address: &dyn Fn(u64) -> Option<Address>,
+    n: u64,
+) -> u64 {
+    let ru = unit.read_unit;
+    let mut oks = 0u64;
+    for x in super::ladder(n).into_iter().chain([2, 3, 4, 7, 11, 12, 16, 23, 24, 32].into_iter()) {
+        oks += unit.convert_file_index(ru, x).is_ok() as u64;
+        if x <= usize::MAX as u64 {
+            let o = x as usize;
+            oks += unit.convert_unit_ref(gimli::UnitOffset(o)).is_ok() as u64;
+            oks += unit.convert_debug_info_ref(gimli::DebugInfoOffset(o)).is_ok() as u64;
+            oks += unit.convert_range_list(ru, gimli::RangeListsOffset(o), convert_address).is_ok() as u64;
+            oks += unit.convert_location_list(ru, gimli::LocationListsOffset(o), convert_address).is_ok() as u64;
+        }
+    }
+    oks
 }
